@@ -43,6 +43,7 @@ func checkC17(c *Ctx) {
 		c17Register(c, p, m)
 		c17Variadic(c, p, m)
 		c17Tags(c, p, m)
+		regOptsIndependent(c, p)
 		c09Globals(c, p, m)
 		tagStoresFromRegistration(c, p)
 		// "is gated as the level it is treated as and is routed to the error device if so requested":
